@@ -232,7 +232,7 @@ func (c *c05Ctx) note(op, arg, outcome string) {
 	st.ops[op]++
 	st.reps[c.ri.name]++
 	st.outcomes[op+"/"+outcome]++
-	if c.pass == "cold" && !c.rev {
+	if strings.HasPrefix(c.pass, "cold") && !c.rev {
 		st.distinct++
 	}
 	fmt.Fprintf(c.dig, "%s|%s|%s|%s|%s|%s\n", c.order, c.ri.name, c.pass, op, arg, outcome)
@@ -381,9 +381,11 @@ func (c *c05Ctx) verify(key [32]byte, f func() error) error {
 func (c *c05Ctx) passAccessor(ri *c05Rep, acc eds.AccessorStreamer, pass string) {
 	c.ri, c.pass = ri, pass
 	groups := []func(eds.AccessorStreamer){c.opMeta, c.opSamples, c.opHalves, c.opRowND, c.opND, c.opRanges, c.opShares, c.opReader, c.opOOB}
-	if pass == "hit" {
-		// a further handle on an accessor instance that already went through the full list (cache plumbing:
-		// the right block must come back): identity, all samples, all halves, full share list
+	if pass == "hit" || strings.HasSuffix(pass, "-light") {
+		// the short list - identity, all samples, all halves, full share list - for (a) a further handle on an
+		// accessor instance that already went through the full list (cache plumbing: the right block must come
+		// back) and (b) the additional lengths of an incomplete parity file (every parity read goes through
+		// AxisHalf; two lengths get the full list)
 		groups = []func(eds.AccessorStreamer){c.opMeta, c.opSamples, c.opHalves, c.opShares}
 	}
 	for _, i := range c.seq(len(groups)) {
